@@ -277,6 +277,51 @@ func c14Run(c *core.Ctx) {
 			}
 			c.Tick()
 		}
+		// unit-repetition family: list-shaped contents made of n copies of one length-prefixed unit followed by 0..2
+		// copies of another (counts up to what 255 octets hold), bare or behind a leading type octet — a limit that
+		// depends on the *number* of entries (a fixed-size table, a counter) is reached only this way
+		{
+			var units [][]byte
+			for _, l := range []int{0, 1, 2, 3, 4, 5, 8} {
+				unit := []byte{byte(l)}
+				for i := 0; i < l; i++ {
+					unit = append(unit, byte(0x61+i))
+				}
+				units = append(units, unit)
+			}
+			for ai, a := range units {
+				u++
+				if !c.Mine(u) {
+					continue
+				}
+				if !c.Begin("repetition", h.name, c14Case{Helper: h.name, Hex: hexs(a)}) {
+					continue
+				}
+				for cnt := 0; cnt*len(a) <= 255; cnt++ {
+					if !thorough && cnt > 40 && cnt%7 != 0 && (cnt+1)*len(a) <= 255 {
+						continue
+					}
+					head := bytes.Repeat(a, cnt)
+					for bi, b := range units {
+						for m := 0; m <= 2; m++ {
+							if m == 0 && bi > 0 {
+								continue
+							}
+							body := append(append([]byte{}, head...), bytes.Repeat(b, m)...)
+							run(body)
+							run(append([]byte{0x01}, body...))
+							if ai == 0 || m == 1 {
+								run(append([]byte{0x00}, body...))
+								if len(body) > 0 {
+									run(body[:len(body)-1])
+								}
+							}
+						}
+					}
+				}
+				c.Tick()
+			}
+		}
 		// mutations of valid encodings: every truncation, every single-octet replacement by all 256 values,
 		// single deletions/insertions, and pairs of replacements from the small alphabet
 		for si, seed := range seeds {
